@@ -107,6 +107,7 @@ type World struct {
 	removedInGC int64
 	inGC        atomic.Bool
 	held        []heldRead // results of earlier reads, re-verified after every later read
+	heldReaders []heldReader // open GetReader results that are read some steps later
 }
 
 var dirCounter atomic.Int64
@@ -226,6 +227,10 @@ func (w *World) open() (err error) {
 
 // Close closes the database and removes its directories.
 func (w *World) Close() {
+	for _, h := range w.heldReaders {
+		h.rc.Close()
+	}
+	w.heldReaders = nil
 	if !w.noHook {
 		verifhook.SetPoint(nil)
 	}
@@ -569,6 +574,56 @@ func (w *World) readKey(id int, key string, useReader bool) ([]byte, error) {
 	return b, nil
 }
 
+// heldReader is a reader handed out by GetReader and not consumed yet. fs_db opens the content file
+// when it hands the reader out, so whatever happens to the key afterwards (overwrite, delete, end of
+// the transaction, collector) the reader must still deliver exactly the content it was opened on.
+type heldReader struct {
+	rc     io.ReadCloser
+	want   []byte
+	desc   string
+	opened int
+	due    int
+}
+
+func (w *World) holdReader(id int, key string, want []byte) {
+	if w.Case.External || len(w.heldReaders) >= 2 || (w.step+len(key)+len(want))%3 != 0 {
+		return
+	}
+	rc, err := w.store(id).GetReader(w.ctx, key)
+	if err != nil {
+		return // the read-back that follows reports it
+	}
+	w.heldReaders = append(w.heldReaders, heldReader{rc: rc, want: want, opened: w.step, due: w.step + 1 + len(want)%3,
+		desc: fmt.Sprintf("%s GetReader(%q) opened at step %d", actorName(w, id), key, w.step)})
+	w.Stats["reader-held"]++
+}
+
+// drainReaders reads the held readers that are due (all of them when all is set).
+func (w *World) drainReaders(what string, all bool) bool {
+	keep := w.heldReaders[:0]
+	ok := true
+	for _, h := range w.heldReaders {
+		if !all && w.step < h.due {
+			keep = append(keep, h)
+			continue
+		}
+		b, err := io.ReadAll(h.rc)
+		h.rc.Close()
+		if !ok {
+			continue
+		}
+		if err != nil {
+			w.R.Failf("%s: reading from %s, %d steps later, failed: %v (the content it was opened on is %s)", what, h.desc, w.step-h.opened, err, w.describe(h.want))
+			ok = false
+		} else if !bytes.Equal(b, h.want) {
+			w.R.Failf("%s: %s, read %d steps later, returned %s; it was opened on %s", what, h.desc, w.step-h.opened, w.describe(b), w.describe(h.want))
+			ok = false
+		}
+	}
+	w.heldReaders = keep
+	return ok
+}
+
 // checkRead compares one read with the model. what describes the context for the message.
 // heldRead is a result handed out by an earlier Get/GetReader: the slice belongs to the caller, so
 // no later call may change it.
@@ -629,6 +684,9 @@ func (w *World) checkRead(id int, key string, useReader bool, what string) bool 
 			return true
 		}
 		if !c.Del && err == nil && bytes.Equal(got, model.Bytes(c)) {
+			if useReader && len(cands) == 1 {
+				w.holdReader(id, key, got)
+			}
 			return true
 		}
 	}
@@ -702,6 +760,9 @@ func (w *World) checkKeys(id int, what string) bool {
 
 // ReadBack lets every actor (autocommit and every open transaction) read every key and list keys.
 func (w *World) ReadBack(what string) bool {
+	if !w.drainReaders(what, false) {
+		return false
+	}
 	start := 0
 	if w.Obs != nil {
 		start = len(*w.Obs)
